@@ -23,13 +23,13 @@ inductive PC where
   | waiting                    -- swap returned true: blocked on `<-done`
   | retd (v e : Nat)           -- about to return
   | done (v e : Nat)
-deriving DecidableEq, Repr, Inhabited
+deriving DecidableEq, Repr, Inhabited, Hashable
 
 structure St where
   started : Bool := false
   cell : Option (Nat × Nat) := none     -- result variables, visible once `done` is closed
   th : List PC := []
-deriving DecidableEq, Repr
+deriving DecidableEq, Repr, Hashable
 
 inductive Obs where
   | inv (t : Nat)                 -- `inv t memo`
@@ -37,7 +37,7 @@ inductive Obs where
   | cbin                          -- `cbin`        (the wrapped function was entered; it cannot know by which call)
   | cbout (v e : Nat)             -- `cbout v e`   (… is about to return (v, e))
   | quiesce (pending : List Nat)
-deriving DecidableEq, Repr
+deriving DecidableEq, Repr, Hashable
 
 inductive Ev where
   | inv (t : Nat)
@@ -48,7 +48,7 @@ inductive Ev where
   | read (t : Nat)
   | ret (t v e : Nat)
   | quiesce (pending : List Nat)
-deriving DecidableEq, Repr
+deriving DecidableEq, Repr, Hashable
 
 def Ev.obs : Ev → Option Obs
   | .inv t => some (.inv t)
